@@ -38,7 +38,7 @@ func TestVerif_C08(t *testing.T) {
 	r.Assume("stored networks are canonical (address already masked, contiguous mask), as net.ParseCIDR produces them")
 	r.Assume("an IPv6 network contains no IPv4 address unless it lies inside ::ffff:0:0/96 (net.IPNet.Contains semantics)")
 	n := r.N(2000, 60000)
-	r.ParCases("hist", n, 4, func(ci int, rng *verifkit.Rand) { c08History(r, "hist", ci, rng) })
+	r.ParCases("hist", n, 8, func(ci int, rng *verifkit.Rand) { c08History(r, "hist", ci, rng) })
 	r.Require("lookups", 20000)
 	r.Require("lookups_plain", 10000)
 	r.Require("lookups_hit", 5000)
@@ -239,10 +239,11 @@ func c08History(r *verifkit.R, phase string, ci int, rng *verifkit.Rand) {
 	steps = append(steps, fmt.Sprintf("via=%s mapped-prefixes=%v", rig.via(), mappedOK))
 	snap := rig.cidr.Snap()
 	nontrivial := false
-	probe := func(n int) {
-		for _, ip := range c08Probes(rng, snap, n) {
+	partial := false
+	probeIPs := func(ips []net.IP, sweep bool) {
+		for _, ip := range ips {
 			mode := 0
-			if viaManager {
+			if viaManager && !sweep {
 				mode = rng.Intn(3)
 			}
 			var got *routing.Route
@@ -264,8 +265,11 @@ func c08History(r *verifkit.R, phase string, ci int, rng *verifkit.Rand) {
 			if mode == 2 {
 				res += fmt.Sprintf(" ; nexthop (%s,%v)", w.name(nh), ok)
 			}
-			step := fmt.Sprintf("lookup %s (len %d) -> %s", ip, len(ip), res)
-			steps = append(steps, step)
+			if !sweep { // sweep lookups are implied by the mutation before them; keep histories readable
+				steps = append(steps, fmt.Sprintf("lookup %s (len %d) -> %s", ip, len(ip), res))
+			} else {
+				r.Add("sweep_lookups", 1)
+			}
 			v := c08Judge(r, w, phase, ci, snap, ip, got, mode == 2, nh, ok, func() any {
 				return map[string]any{"history": steps, "stored": c8ShowAll(w, snap)}
 			})
@@ -289,6 +293,20 @@ func c08History(r *verifkit.R, phase string, ci int, rng *verifkit.Rand) {
 			}
 		}
 	}
+	probe := func(n int) { probeIPs(c08Probes(rng, snap, n), false) }
+	// sweep: after EVERY mutating call, the first address of every stored prefix is looked up
+	// (a broken per-prefix order is visible until the next sort of that prefix)
+	sweep := func() {
+		seen := map[string]bool{}
+		var ips []net.IP
+		for i := range snap {
+			if c := c8Canon(snap[i].Net); c.OK && !seen[c.key()] {
+				seen[c.key()] = true
+				ips = append(ips, net.IP(c.IP))
+			}
+		}
+		probeIPs(ips, true)
+	}
 	nops := rng.Range(20, 200)
 	for s := 0; s < nops; s++ {
 		if rng.Chance(1, 4) {
@@ -297,11 +315,21 @@ func c08History(r *verifkit.R, phase string, ci int, rng *verifkit.Rand) {
 		}
 		op := gen.genOp(c8Cidr, snap)
 		steps = append(steps, op.show(w))
+		before := snap
 		rig.apply(&op)
+		if op.Op == "mark" {
+			continue
+		}
 		snap = rig.cidr.Snap()
 		r.Add("mutations", 1)
 		r.Add("op_"+op.Op, 1)
+		if op.Op == "cleanup" && c8PartialCleanup(w, before, snap) {
+			r.Add("partial_stale_cleanups", 1)
+			partial = true
+		}
+		sweep()
 	}
+	_ = partial
 	probe(rng.Range(5, 15))
 	if len(snap) > 0 {
 		r.Add("histories_ending_nonempty", 1)
